@@ -46,10 +46,11 @@ _UNITS = None
 
 def _work(args):
     global _UNITS
-    name, tier, prefix, split = args
+    name, tier, prefix, split = args[:4]
+    budget = args[4] if len(args) > 4 else 0
     if _UNITS is None:
         _UNITS = {u.name: u for u in load_units()}
-    return run_unit(_UNITS[name], tier, prefix=tuple(prefix), split=split)
+    return run_unit(_UNITS[name], tier, prefix=tuple(prefix), split=split, budget=budget)
 
 
 def merge(a, b):
@@ -75,7 +76,7 @@ def match_finding(kf, prop, rec):
     for f in kf.get("findings", []):
         if f.get("property") != prop:
             continue
-        if f.get("obligation") != rec["name"]:
+        if f.get("obligation") not in (rec["name"], rec["name"].split("[")[0]):     # bounded clauses carry "[N cases]"
             continue
         pp = f.get("path")
         if pp is not None and pp != rec["path"]:
@@ -129,8 +130,9 @@ def main(argv=None):
     crash = lambda nm, e: {"unit": nm, "error": "worker crashed: " + repr(e), "error_kind": "engine", "obligations": [], "paths": 0,
                            "pruned": 0, "functions": [], "bounded": None, "fmodel": "?", "solver_s": 0, "canary": None,
                            "assumptions": [], "props": [prop], "replay": None, "wall_s": 0, "pending": []}
+    budgets = {u.name: getattr(u, "path_budget", 0) for u in units}      # work sharing for units with few, expensive paths
     with cf.ProcessPoolExecutor(max_workers=max(1, a.jobs), mp_context=ctxm) as ex:
-        futs = {ex.submit(_work, (u.name, tier, (), a.jobs if getattr(u, "parallel", False) else 0)): u.name for u in units}
+        futs = {ex.submit(_work, (u.name, tier, (), a.jobs * getattr(u, "split_factor", 1) if getattr(u, "parallel", False) else 0)): u.name for u in units}
         while futs:
             done, _ = cf.wait(list(futs), return_when=cf.FIRST_COMPLETED)
             for f in done:
@@ -140,7 +142,7 @@ def main(argv=None):
                 except Exception as e:  # worker crashed
                     r = crash(nm, e)
                 for pre in r.pop("pending", []):
-                    futs[ex.submit(_work, (nm, tier, tuple(pre), 0))] = nm
+                    futs[ex.submit(_work, (nm, tier, tuple(pre), 0, budgets.get(nm, 0)))] = nm
                 if nm in byunit:
                     merge(byunit[nm], r)
                 else:
